@@ -717,7 +717,12 @@ func (s *storage) Shrink(stopAfter time.Duration) bool {
 				anyFound = true
 			}
 			if !table.isFree && table.Len() == 0 {
-				s.archetypes[table.archetype].FreeTable(table)
+				archetype := &s.archetypes[table.archetype]
+				archetype.FreeTable(table)
+				// The table's targets may still be alive, so it must also be removed
+				// from the target indices and from cached filters.
+				archetype.RemoveTableTargets(table)
+				s.cache.removeTable(table)
 				anyFound = true
 			}
 		}
